@@ -86,7 +86,10 @@ def generate(seed, tier, index):
             steps.append({"op": "settle"})
     net = {"latency": rng.choice(["zero", "lan", "slow", "bursty", "skew"]),
            "frag": rng.choice(["whole", "fixed:1", "fixed:7", "random", "coalesce"]), "hwm": rng.choice([0, 64, 65536])}
-    return {"devices": [spec], "nclients": nclients, "steps": steps, "net": net, "seed": rng.randrange(1 << 30)}
+    # drivers commonly react to a switch change by updating the property's state (which publishes the vector again):
+    # whatever such a handler publishes must satisfy the rule too
+    handlers = [v["name"] for v in vecs if rng.random() < 0.5]
+    return {"devices": [spec], "nclients": nclients, "steps": steps, "net": net, "seed": rng.randrange(1 << 30), "state_handlers": handlers}
 
 
 def execute(scen):
@@ -99,7 +102,29 @@ def execute(scen):
     transitions = set()
     applied_ops = 0
     with Sim(scen["seed"], cfg, PoolConfig()) as sim:
-        stack = Stack(sim, scen["devices"])
+        from indi.device.events import Change, on
+
+        def extra(spec_):
+            def build(dct):
+                out = {}
+                grp = dct["g0"]
+                for vattr, vdef in grp.vectors.items():
+                    if vdef.name not in scen.get("state_handlers", []):
+                        continue
+                    srcs = list(vdef.elements.values())
+                    counter = [0]
+
+                    def handler(self, event, counter=counter):
+                        counter[0] += 1
+                        probes["change_handler_published"] = probes.get("change_handler_published", 0) + 1
+                        event.vector.state_ = ["Busy", "Ok", "Alert"][counter[0] % 3]
+
+                    handler.__name__ = f"on_change_{vattr}"
+                    out[f"on_change_{vattr}"] = on(srcs, Change)(handler)
+                return out
+            return build
+
+        stack = Stack(sim, scen["devices"], extra_attrs=extra)
         for _ in range(scen["nclients"]):
             stack.add_client(start=False)
         raw = stack.add_raw("rawwriter")
